@@ -7,6 +7,7 @@ mod c11;
 mod c13;
 mod c16;
 mod client;
+mod editor;
 mod repo;
 mod util;
 
@@ -22,6 +23,7 @@ fn run_object(v: &Value) -> Value {
     let p = v["p"].as_u64().unwrap_or(0);
     RT.with(|rt| POOL.with(|pool| match p {
         6 => client::run(rt, pool, v),
+        10 => editor::run(rt, pool, v),
         15 => client::run_single(rt, pool, v),
         13 => c13::key_table(pool, v),
         _ => json!([999]),
